@@ -48,6 +48,8 @@ var ufDecls = []ufDecl{
 	{"pf_err", "(declare-fun pf_err (Str) Err)"},
 	{"itoa", "(declare-fun itoa (Int) Str)"},
 	{"fmt_v", "(declare-fun fmt_v (Any) Str)"},
+	{"json_bytes", "(declare-fun json_bytes (Any) Str)"},
+	{"json_err", "(declare-fun json_err (Any) Err)"},
 	{"f64_lt", "(declare-fun f64_lt (F64 F64) Bool)"},
 	{"f64_le", "(declare-fun f64_le (F64 F64) Bool)"},
 	{"f64_eq", "(declare-fun f64_eq (F64 F64) Bool)"},
